@@ -1,5 +1,6 @@
 import Regatta.Props.C05
 import Regatta.Props.C06
+import Regatta.Props.C07
 /-
   C05 ∘ C06 — a whole poll of the replication worker, end to end: the leader's `Replicate` stream
   (C06: exactly the log entries after the requested index, in non-empty batches, then one final
@@ -59,5 +60,27 @@ theorem c05_poll_end_to_end {σ : Type} (H : Nat → LEntry) (hH : IdxOK H) (pay
   have hjeq : j = a + 1 - (f.li + 1) := hup.mp hm
   have : (proposeAll f chunks).li = a := by rw [hlin, hlen]; omega
   exact ⟨this, by rw [hinv.1, this]⟩
+
+
+/-- **snapshot recovery, end to end** (C05 ∘ C07): the leader's store `src` holds the leader's
+content at index `s` (C01: its user map is the specification's after `s` entries) and its applied
+index is `s`; the follower loads the leader's snapshot stream — whatever the in-memory-log threshold
+and wherever the batch limits fall — into a fresh shard with the real restore loop and the real
+state machine (models of C07 / C01).  Then the follower's store, seen as C05's follower (user map
+and recorded leader index), satisfies the replication invariant at index `s`. -/
+theorem c05_recover_end_to_end (L : LLog) (s : Nat) (hs : s ≤ L.length)
+    (src : Db) (h : Refine.WF src) (hsrc : Refine.absU src = leaderAt L s)
+    (hidx : readIndex src Key.sysLocalIndex = s) (hs64 : s < 18446744073709551616)
+    (maxInMem : Nat) (msgs : List (Nat × SnapStream.Msg)) (hsmall : msgs.length + 3 < 18446744073709551616)
+    (hstream : msgs.map (·.2) = SnapStream.leaderStream src) :
+    ∃ db' rs n, update [] (SnapStream.toEntries 1 (SnapStream.readIntoTable maxInMem msgs)) = .ok (db', rs, n) ∧
+      Inv L ⟨Refine.absU db', readIndex db' Key.sysLeaderIndex⟩ := by
+  obtain ⟨db', rs, n, hu, _, habs, hli⟩ :=
+    C07.c07_restore_exact src h maxInMem msgs hsmall (by rw [hidx]; exact hs64) (Or.inr hstream)
+  refine ⟨db', rs, n, hu, ?_, ?_⟩
+  · show Refine.absU db' = leaderAt L (readIndex db' Key.sysLeaderIndex)
+    rw [hli hstream, hidx, habs, hsrc]
+  · show readIndex db' Key.sysLeaderIndex ≤ L.length
+    rw [hli hstream, hidx]; exact hs
 
 end Regatta.Props.C05Compose
